@@ -174,4 +174,35 @@ example : pulls 0 { ex with eager := true } (call 0 { ex with eager := true }).2
 example : pulls 0 { ex with yields := [.v 1, .throws, .v 2] } (call 0 ex).2.1 3 = [.yielded 1, .threw, .done] := by decide
 example : (call 0 { ex with eager := true }).2.2 = [.fx 0, .evalYield 0 0] := by decide
 
+
+
+
+/-- **Position of the completion clause is irrelevant**: writing CO_RETURN / CO_THROW before, between or
+    after the CO_YIELD clauses gives the same expectation — the yields in declaration order, then the
+    completion (`.CO_RETURN(0).CO_YIELD(1).CO_YIELD(2)` yields 1, 2 and then returns 0). -/
+theorem ofClauses_position_irrelevant (ys : List Val) (r : Val) (eager : Bool) (k : Nat) :
+    Exp.ofClauses ((ys.take k).map Clause.coYield ++ [Clause.complete r] ++ (ys.drop k).map Clause.coYield) eager
+      = some { yields := ys, ret := r, eager := eager } := by
+  have h1 : ∀ l : List Val, (l.map Clause.coYield).filterMap Clause.completion? = [] := by
+    intro l; induction l with
+    | nil => rfl
+    | cons a t ih => simpa [Clause.completion?] using ih
+  have h2 : ∀ l : List Val, (l.map Clause.coYield).filterMap Clause.yield? = l := by
+    intro l; induction l with
+    | nil => rfl
+    | cons a t ih => simpa [Clause.yield?] using ih
+  unfold Exp.ofClauses
+  rw [List.filterMap_append, List.filterMap_append, List.filterMap_append, List.filterMap_append, h1, h1, h2, h2]
+  simp [Clause.completion?, List.filterMap_cons, Clause.yield?.eq_2]
+
+/-- hence every placement produces the specified item sequence (corollary of `coro_values`-style theorems
+    above, which are stated for the `Exp` the clauses denote). -/
+theorem clause_order_same_exp (ys : List Val) (r : Val) (eager : Bool) (j k : Nat) :
+    Exp.ofClauses ((ys.take j).map Clause.coYield ++ [Clause.complete r] ++ (ys.drop j).map Clause.coYield) eager
+      = Exp.ofClauses ((ys.take k).map Clause.coYield ++ [Clause.complete r] ++ (ys.drop k).map Clause.coYield) eager := by
+  rw [ofClauses_position_irrelevant, ofClauses_position_irrelevant]
+
+example : Exp.ofClauses [.complete (.v 0), .coYield (.v 1), .coYield (.v 2)] false
+    = some { yields := [.v 1, .v 2], ret := .v 0, eager := false } := by rfl
+
 end Tromp.C20
